@@ -694,7 +694,7 @@ fn ids_distinct(plan: &Plan) -> bool {
 pub fn check_auth(ctx: &Ctx, c: &AuthCase, reqs: &[(&'static str, Req)], l: &mut Local) -> Vec<(String, String)> {
     let mut bad = Vec::new();
     let (call, plan) = auth_call(c, reqs);
-    let tag = format!("{:?}:{:?}:{:?}", c.shape, c.schema, c.vr);
+    let tag = format!("{:?}:{:?}", c.shape, c.schema);
     // --- implementation: both entry points
     let case_json = || json!({"kind": "authz", "case": c});
     let Some(ffi_v) = ctx.guard("ffi::is_authorized_json", case_json, || ffi::is_authorized_json(call.clone())) else { return bad };
